@@ -25,6 +25,8 @@ pub enum Act {
     ConsumeOutput(u16),
     /// select the next stream, only honoured once end-of-stream was reported
     Advance,
+    /// set_stream(active_stream()): documented no-op, legal at any time
+    Reselect,
     /// select the next stream (or none after the last) right now, wherever the parser is
     /// (legal at any time; not generated for C02, whose completeness check needs every byte)
     ForceAdvance,
@@ -186,6 +188,13 @@ pub fn drive_schedule(d: &mut StreamDrv, schedule: &[Act], order: &[u8], truth: 
                     d.advance(order, truth)?;
                 }
             },
+            Act::Reselect => {
+                let cur = d.p.active_stream();
+                let before = d.p.stream_buffer().to_vec();
+                let r = d.p.set_stream(cur);
+                vensure!(r.is_ok() && d.p.active_stream() == cur && d.p.stream_buffer() == &before[..], "c18-reselect-loses-data", "re-selecting the active stream {cur:?} changed the parser's state");
+                d.check_prefix(truth)?;
+            },
         }
         if d.error.is_some() {
             return Ok(());
@@ -256,6 +265,7 @@ pub fn act() -> BoxedStrategy<Act> {
         3 => Just(Act::Compress),
         1 => prop_oneof![1u16..=9, Just(u16::MAX)].prop_map(Act::ConsumeOutput),
         2 => Just(Act::Advance),
+        1 => Just(Act::Reselect),
     ]
     .boxed()
 }
